@@ -19,7 +19,7 @@ BUDGET = {"quick": 16 * 800, "thorough": 16 * 6000}
 TOLERANCES = {
     "errors": "1e-10*(1+S+S_T) translation rows, 1e-10 rotation rows",
     "chi2": "sum over edges of (1e-9*A + error-propagation bound), see C02",
-    "poses after k iterations": "1e-8*(1+S+S_T)*max(1, cond(H_ff)*1e-4) translation, 1e-8*max(1, cond*1e-4)*(1+1e-4*S_T) rotation (mod 2pi / up to sign)",
+    "poses after k iterations": "1e-10*(1+S+S_T)*max(1, cond(H_ff)*1e-4) translation, 1e-8*max(1, cond*1e-4)*(1+1e-4*S_T) rotation (mod 2pi / up to sign)",
 }
 ASSUMPTIONS = ["trajectory comparison restricted to the numerically stable regime (convergence neighbourhood of C05)"]
 
@@ -32,6 +32,9 @@ def strategy_(g):
     T = g.pose(base, s=sT)
     case["T"] = T
     case["k"] = g.integer(1, 5)
+    # how the transformed graph comes about: built fresh from transformed values, or the SAME graph object that has
+    # already been evaluated (chi2, Jacobians, one optimize call) gets every vertex re-posed to T (+) v
+    case["repose_in_place"] = g.choice([False, True])
     return case
 
 
@@ -89,7 +92,18 @@ def check(case, ctx):
     S_ = GG.S_of(case)
 
     case2, Tv = transform_case(case, T)
-    g1, g2 = GG.build(case), GG.build(case2)
+    g1 = GG.build(case)
+    if case.get("repose_in_place"):
+        ctx.event("transformed-by-reposing-a-live-graph")
+        g2 = GG.build(case)
+        g2.calc_chi2()
+        for e in g2._edges:
+            e.calc_jacobians()
+            e.calc_chi2_gradient_hessian()
+        for v, vd in zip(g2._vertices, case2["verts"]):
+            v.pose = gs.mk_pose(vd["p"])
+    else:
+        g2 = GG.build(case2)
 
     # (1) errors and chi2
     tol_sum = 0.0
@@ -132,7 +146,7 @@ def check(case, ctx):
         want = R.mul(base, Tv, p1) if kk == base else R.act(base, Tv, p1)
         want = [R.val(x) for x in want]
         dt, dr = GC.pose_diff(kk, gs.stored(v2.pose), want)
-        tt = 1e-8 * (1 + S_ + ST) * amp
+        tt = 1e-10 * (1 + S_ + ST) * amp
         tr = 1e-8 * amp * (1 + 1e-4 * ST)
         worst_t, worst_r = max(worst_t, dt / tt), max(worst_r, dr / tr)
         if not (dt <= tt and dr <= tr):
@@ -158,7 +172,7 @@ def check(case, ctx):
         want = R.mul(base, Tv, p1) if kk == base else R.act(base, Tv, p1)
         want = [R.val(x) for x in want]
         dt, dr = GC.pose_diff(kk, gs.stored(v2.pose), want)
-        tt = 1e-8 * (1 + S_ + ST) * amp
+        tt = 1e-10 * (1 + S_ + ST) * amp
         tr = 1e-8 * amp * (1 + 1e-4 * ST)
         if not (dt <= tt and dr <= tr):
             return ctx.fail("trajectory-frame-dependent", "vertex #%d after a default optimize() (%d iterations): T(+)v differs from v' by (%.3e, %.3e), tol (%.3e, %.3e)" % (i, ra.num_iterations, dt, dr, tt, tr))
